@@ -37,6 +37,18 @@ def enumerate_states(tier, fam):
         for cfg in c.cfgs(tier):
             for k in kinds:
                 st.append(dict(comp=name, cfg=cfg, kind=k, fam=fam))
+            # "flat": every mesh-like input EXACTLY planar (z = 0: zero dihedral, zero camber - a structural special value that no
+            # generic perturbation hits), all other inputs generic and non-zero; only where the component has such an input
+            # not for WingboxGeometry: its section twist is |angle| = arccos(...) of the chord vector, which has a kink (no
+            # derivative) at exactly zero twist - a non-smooth point, DESIGN section 4
+            if (c.kinds is None or "gen0" in c.kinds) and name not in ("WingboxGeometry",):
+                s0 = dict(comp=name, cfg=cfg, kind="gen0", fam=fam)
+                try:
+                    pa, pb = c._point(s0, "gen0"), c._point(dict(s0, kind="flat"), "flat")
+                except Exception:
+                    continue
+                if isinstance(pa, dict) and any(isinstance(v, np.ndarray) and v.ndim >= 2 and v.shape[-1] == 3 and not np.array_equal(v, pb.get(k_)) for k_, v in pa.items()):
+                    st.append(dict(comp=name, cfg=cfg, kind="flat", fam=fam))
     return st, 0
 
 
@@ -55,6 +67,10 @@ def msh(cfg, fam, pf=None, nx=None, ny=None, side=None, **kw):
 
 def perturbed(m, s, kind, amp=0.03):
     """a generic (non-rigid) perturbation of a mesh: different for the two generic points"""
+    if kind == "flat":
+        f = m.copy()
+        f[:, :, 2] = 0.0
+        return f
     k = koff(kind)
     return m + amp * np.sin((1.3 + 0.4 * k) * m[:, :, [1, 0, 1]] + np.array([0.2, 0.5, 0.9]) + k)
 
